@@ -51,23 +51,28 @@ Force(w) ==
   \/ /\ cur[w].h = "StartStage" /\ cnt.force < MaxForce /\ status[cur[w].e] = "NOT_STARTED"   \* wait-retry give-up
      /\ ForceCommit(w, [x \in {cur[w].e} |-> "TERMINAL"], TRUE)
 
+(* named wrappers: one coverage line per specification action *)
+MC_AppendInTxn(w) == \E e \in InTxnEvents(w) : AppendInTxn(w, e)
+MC_RecordOwn(w)   == \E e \in OwnEvent(w) : RecordOwn(w, e)
+MC_Raise(w)       == cur[w].rb /\ cur[w].pc \in {"run", "claimed", "post", "done"} /\ Raise(w)
+MC_Rollback(w) ==
+  /\ cnt.rollbacks < MaxRollbacks           \* a failing completion transaction: CAS conflict before the append
+  /\ cur[w].h \in {"CompleteTask", "CompleteStage"} \/ tx[w].open      \* or an exception after it
+  /\ cur[w].pc \in {"run", "appended"}
+  /\ Rollback(w)
+MC_Crash == cnt.crashes < MaxCrashes /\ Crash
+
 Step(w) ==
   \/ BeginEnv(w)
   \/ StartWorkflowCommit(w) \/ StartStageClaim(w) \/ StartStageReplan(w) \/ StartStagePlan(w)
   \/ StartTaskCommit(w) \/ CancelStageCommit(w) \/ Force(w)
-  \/ \E e \in InTxnEvents(w) : AppendInTxn(w, e)
-  \/ \E e \in OwnEvent(w) : RecordOwn(w, e)
+  \/ MC_AppendInTxn(w) \/ MC_RecordOwn(w)
   \/ Publish(w)
   \/ CompleteTaskCommit(w) \/ CompleteStageCommit(w) \/ CompleteStageErrorCommit(w)
   \/ SkipStageCommit(w) \/ CompleteWorkflowCommit(w)
-  \/ Return(w)
-  \/ cur[w].rb /\ cur[w].pc \in {"run", "claimed", "post", "done"} /\ Raise(w)
-  \/ /\ cnt.rollbacks < MaxRollbacks           \* a failing completion transaction: CAS conflict before the append
-     /\ cur[w].h \in {"CompleteTask", "CompleteStage"} \/ tx[w].open      \* or an exception after it
-     /\ cur[w].pc \in {"run", "appended"}
-     /\ Rollback(w)
+  \/ Return(w) \/ MC_Raise(w) \/ MC_Rollback(w)
 
-MCNext == (\E w \in Workers : Step(w)) \/ (cnt.crashes < MaxCrashes /\ Crash)
+MCNext == (\E w \in Workers : Step(w)) \/ MC_Crash
 
 MCView == <<prog, status, ev, cur, tx, pend, bus, wr, done, cnt>>
 
